@@ -195,6 +195,25 @@ def assign(mod, base_seed, tier, n_workers):
     return per
 
 
+def release_compiled_programs():
+    """Drop compiled XLA programs and our own jit wrappers (thorough tiers walk through
+    hundreds of compiled menu entries; keeping them all exhausts memory)."""
+    import gc
+
+    import jax
+
+    from . import lab
+    from .models import replay
+
+    replay._JIT.clear()
+    for name in ("lockstep",):
+        m = sys.modules.get(f"afqmcsim.checks.{name}")
+        if m is not None and hasattr(m, "_MEAS"):
+            m._MEAS.clear()
+    jax.clear_caches()
+    gc.collect()
+
+
 def worker_main(pid, tier, base_seed, wid, n_workers, out_path):
     import faulthandler
 
@@ -221,12 +240,17 @@ def worker_main(pid, tier, base_seed, wid, n_workers, out_path):
             out.flush()
 
         emit({"type": "start", "wid": wid, "n_assigned": len(mine)})
+        last_group = None
         for i, is_recheck in order:
             if time.time() - t0 > budget:
                 skipped += 1
                 continue
             seed = derive_seed(base_seed, mod.ID, i)
             cfg = mod.gen_cfg(seed, i, tier)
+            g = mod.group_of(cfg)
+            if last_group is not None and g != last_group:
+                release_compiled_programs()  # a worker holds the programs of one menu entry at a time
+            last_group = g
             faulthandler.dump_traceback_later(mod.TIERS[tier].get("run_timeout_s", 600), exit=True)
             try:
                 rec, viol, trace = run_one(mod, cfg, None, known, seed=seed)
@@ -322,8 +346,10 @@ def parent_main(pid, tier, base_seed):
     n_workers = int(os.environ.get("VERIF_WORKERS", "0")) or min(16, os.cpu_count() or 1)
     n_workers = max(1, min(n_workers, mod.TIERS[tier]["runs"]))
     scratch = env.make_scratch(f"afqmcsim-{pid}-")
-    cache = os.path.join(scratch, "jaxcache")
-    os.makedirs(cache, exist_ok=True)
+    # the shared compilation cache goes to disk, not to the RAM-backed scratch root
+    import tempfile
+
+    cache = tempfile.mkdtemp(prefix=f"afqmcsim-jaxcache-{pid}-", dir=os.environ.get("TMPDIR") or "/tmp")
     procs = []
     try:
         for w in range(n_workers):
@@ -369,6 +395,7 @@ def parent_main(pid, tier, base_seed):
         import shutil
 
         shutil.rmtree(scratch, ignore_errors=True)
+        shutil.rmtree(cache, ignore_errors=True)
 
 
 def finish(pid, mod, tier, base_seed, records, harness_errors, n_workers, t0):
